@@ -70,6 +70,8 @@ def run_case(case):
     sess = gen.make_session(impl, dims, case.get("seed", "comp%d" % case.get("mask", 0)))
     try:
         cmd = "cmd-%s" % (case.get("i", case.get("mask")))
+        if case["kind"] == "rand" and dims["maxdata"] <= 8192 and rng.random() < 0.08:
+            cmd = cmd + " " + "y" * (dims["maxdata"] + rng.choice([-12, -8, -7, -6, -1, 2]) - len(cmd) - 1)
         dest = (b"root:" if api == "root" else (b"exec:" if api == "exec_out" else b"shell:") + cmd.encode())
         sess.sim.scripts[dest] = list(chunks)
         n_before = len(sess.sim.all_streams)
